@@ -224,6 +224,12 @@ func c09Claimed(l Layout) bool {
 }
 
 func (c *C09Case) Run() string {
+	tensor.VerifTrackPools(true)
+	defer tensor.VerifTrackPools(false)
+	return c.run()
+}
+
+func (c *C09Case) run() string {
 	d := dtByName(c.DT)
 	A, msg := buildOpnd(&c.A, d)
 	if msg != "" {
@@ -431,6 +437,19 @@ func (c *C09Case) Run() string {
 	}
 	if m := unchanged(); m != "" {
 		return desc + ": " + m
+	}
+	if Dst != nil && (c.Mode == "reuse" || c.Mode == "incr") && Dst.b.T == Dst.b.Root && c.Op != "Dot" {
+		// the caller is done with the destination and hands it back: nothing may reach the pools twice
+		// (whatever the call returned to the pools on the destination's behalf, the destination no longer holds)
+		if rd, ok := res.(*tensor.Dense); ok && rd == Dst.b.T {
+			tensor.VerifPoolEvents()
+			tensor.ReturnTensor(rd)
+			for _, e := range tensor.VerifPoolEvents() {
+				if e.Kind == "double-return" {
+					return desc + fmt.Sprintf(": handing the destination back with ReturnTensor after the product returned a slice of %d ints to the pool a second time", e.Size)
+				}
+			}
+		}
 	}
 	return ""
 }
